@@ -24,7 +24,9 @@ def draw_read_channel(g, ascii_only=True, allow_cr=True, encodable=None):
         cfg["codec"] = g.choice(codecs)
         cfg["newline"] = g.choice(["\n", "\n", "\r\n", "\r"] if allow_cr else ["\n", "\r\n"])
         if cfg["codec"] == "utf-8-sig":
-            cfg["explicit"] = g.random() < 0.3
+            cfg["explicit"] = g.random() < 0.5
+            if cfg["explicit"] and g.random() < 0.6:
+                cfg["encoding_kw"] = g.choice(["utf-8", "UTF-8", "utf8"])      # BOM file + plain UTF-8 named explicitly
         elif cfg["codec"] == "utf-8" and ascii_only:
             # pure-ASCII text: either encoding= is given, or chardet is switched off (autodetect_encoding=False: lasio then
             # tries ascii first).  chardet's guess for BOM-less files is not claimed by any property (it takes e.g.
@@ -55,7 +57,7 @@ def read_via(fs, text, cfg, kw=None, lasio_mod=None, tag="r"):
             finally:
                 fh.close()
         if cfg.get("explicit"):
-            kw["encoding"] = cfg["codec"]
+            kw["encoding"] = cfg.get("encoding_kw") or cfg["codec"]
         elif cfg.get("no_chardet") or cfg["codec"] != "utf-8-sig":
             kw["autodetect_encoding"] = False
         src = path if ch == "path" else pathlib.Path(path)
